@@ -417,8 +417,8 @@ def corr_loop(chk: C.Check, r: Any, thorough: bool, stats: dict[str, Any]) -> li
     from liquid2.builtin import StringLiteral
     items = []
     combos = []
-    offs = [None, "continue", "'2'", "'x'", "'0'", "1", "0", "3", "ov", "'continue'", "'7'"]
-    lims = [None, "0", "1", "2", "lv", "9"]
+    offs = [None, "continue", "'2'", "'x'", "'0'", "1", "0", "3", "ov", "'continue'", "'7'", "-2", "9", "'-1'"]
+    lims = [None, "0", "1", "2", "lv", "9", "-1"]
     for off in offs:
         for lim in lims:
             for rev in (False, True):
@@ -430,8 +430,8 @@ def corr_loop(chk: C.Check, r: Any, thorough: bool, stats: dict[str, Any]) -> li
             n = r.choice([0, 1, 3, 5, 6])
             xs = [r.randrange(0, 50) for _ in range(n)]
             it_kind = r.choice(["xs", "xs", "xs", "bad"])
-            ov = r.choice([0, 1, 2, 4, None])
-            lv = r.choice([0, 1, 3, None])
+            ov = r.choice([0, 1, 2, 4, None, -3, 11])
+            lv = r.choice([0, 1, 3, None, -2])
             stop0 = r.choice([0, 0, 1, 2, 4, 7])
             src = "{% for x in " + ("xs" if it_kind == "xs" else "bad") + (f" limit: {lim}" if lim else "") \
                 + (f" offset: {off}" if off else "") + (" reversed" if rev else "") + " %}{% endfor %}"
